@@ -1145,6 +1145,85 @@ theorem execWhile_sameNames : ∀ (n : Nat) (c : Expr F) (b : List (Stmt F)) (st
         | ret v => exact hc
         | normal => exact SameNames.trans hc (ih c b s1)
 
+theorem for_tail_sameNames (n : Nat) (ihFor : ∀ (lv : Str) (r : Ranger F) (b : List (Stmt F)) st, FrameR st (execForLoop ops ext prog n lv r b st))
+    (st : St F) (lv : Str) (body : List (Stmt F)) (rr : Res F (Ranger F)) (h : FrameR (pushScope st) rr) :
+    SameNames st (match rr with
+      | .err o s => (.err o (popScope s) : Res F (Completion F))
+      | .ok r s =>
+        match execForLoop ops ext prog n lv r body s with
+        | .err o s' => .err o (popScope s')
+        | .ok c s' => .ok c (popScope s')).st := by
+  cases rr with
+  | err o s => exact push_pop_sameNames st s h
+  | ok r s =>
+    have h0 : Frame (pushScope st) s := h
+    simp only
+    cases hx : execForLoop ops ext prog n lv r body s with
+    | err o s' => exact push_pop_sameNames st s' (h0.trans (frame_err (ihFor lv r body s) hx))
+    | ok c s' => exact push_pop_sameNames st s' (h0.trans (frame_ok (ihFor lv r body s) hx))
+
+/-- **C10, whole programs**: a `for` statement — whatever its range, its body and the way it ends —
+leaves every scope with exactly the names it had: the loop variable and everything the body declares
+are gone afterwards, nothing visible before is lost -/
+theorem for_declares_nothing_outside (m : Nat) (lvOpt : Option Str) (lvTy : Ty) (range : ForRange F) (body : List (Stmt F)) (st0 : St F) :
+    SameNames st0 (execS ops ext prog m (.forS lvOpt lvTy range body) st0).st := by
+  cases m with
+  | zero => simp only [execS]; exact SameNames.refl _
+  | succ n =>
+    obtain ⟨ihE, _, _, _, _, _, _, _, _, _, ihFor, ihNumOr, _⟩ := frame_invariant ops ext prog n
+    unfold execS
+    cases ht : tick st0 with
+    | none => exact SameNames.refl _
+    | some st =>
+      have ft := tick_sameNames st0 st ht
+      refine SameNames.trans ft (for_tail_sameNames ops ext prog n ihFor st _ body _ ?_)
+      cases range with
+      | step start stop step =>
+        simp only
+        cases h1 : evalNumOr ops ext prog n start ops.zero (pushScope st) with
+        | err o s1 => exact frame_err (ihNumOr start ops.zero _) h1
+        | ok a s1 =>
+          have f1 := frame_ok (ihNumOr start ops.zero _) h1
+          simp only
+          cases h2 : evalNumOr ops ext prog n (some stop) ops.zero s1 with
+          | err o s2 => exact f1.trans (frame_err (ihNumOr (some stop) ops.zero s1) h2)
+          | ok b s2 =>
+            have f2 := f1.trans (frame_ok (ihNumOr (some stop) ops.zero s1) h2)
+            simp only
+            cases h3 : evalNumOr ops ext prog n step ops.one s2 with
+            | err o s3 => exact f2.trans (frame_err (ihNumOr step ops.one s2) h3)
+            | ok c s3 =>
+              have f3 := f2.trans (frame_ok (ihNumOr step ops.one s2) h3)
+              simp only
+              split
+              · exact f3
+              · cases lvOpt with
+                | none => exact f3
+                | some nm => exact f3.trans (setVar_frame _ _ _)
+      | over e =>
+        simp only
+        cases he : evalE ops ext prog n e (pushScope st) with
+        | err o s1 => exact frame_err (ihE e _) he
+        | ok v s1 =>
+          have f1 : Frame (pushScope st) s1 := frame_ok (ihE e _) he
+          cases v with
+          | arr a =>
+            cases lvOpt with
+            | none => exact f1
+            | some nm => exact f1.trans ((zeroVal_frame ops s1 lvTy).trans (setVar_frame _ _ _))
+          | str cs =>
+            cases lvOpt with
+            | none => exact f1
+            | some nm => exact f1.trans (setVar_frame _ _ _)
+          | map a =>
+            simp only
+            split
+            · cases lvOpt with
+              | none => exact f1
+              | some nm => exact f1.trans (setVar_frame _ _ _)
+            · exact f1
+          | _ => exact f1
+
 /-- **C10, whole programs**: an `if` / `else if` / `else` chain and a `while` loop, whatever their
 bodies declare and however they end, leave every scope with exactly the names it had: nothing declared
 in a block is visible after it, nothing visible before is lost -/
